@@ -24,7 +24,7 @@ use verif_harness::{
 use watchexec_signals::Signal;
 use watchexec_supervisor::{
 	command::{Command, Program},
-	job::{start_job, Job, Ticket},
+	job::{start_job, Control, Job, Ticket},
 };
 
 #[derive(Clone, Debug, Deserialize)]
@@ -239,6 +239,10 @@ async fn run_script(script: Script, paused: bool) -> Vec<Ev> {
 				}))
 			}
 			("unset_error_handler", Some(j)) => Some(j.unset_error_handler()),
+			// single controls of the public enum through Job::control()
+			("raw_continue", Some(j)) => Some(j.control(Control::ContinueTryGracefulRestart)),
+			("raw_delete", Some(j)) => Some(j.control(Control::Delete)),
+			("raw_next_ending", Some(j)) => Some(j.control(Control::NextEnding)),
 			(other, _) => panic!("unknown op {other}"),
 		};
 
